@@ -461,6 +461,27 @@ def g_trampoline(R, tier):
     pre = fnode.body[: fnode.body.index(loop)]
     post = fnode.body[fnode.body.index(loop) + 1:]
 
+    # roles of the locals, found in the code (not assumed by name): the explicit stack is what
+    # the loop tests, the pending result is what is sent into the suspended generator, the
+    # root is the (first) parameter
+    def _name_in(e):
+        if isinstance(e, ast.Name):
+            return e.id
+        if isinstance(e, ast.Call) and e.args and isinstance(e.args[0], ast.Name):  # len(stack)
+            return e.args[0].id
+        if isinstance(e, ast.Compare):
+            return _name_in(e.left)
+        if isinstance(e, ast.UnaryOp):
+            return _name_in(e.operand)
+        return None
+    STACK = _name_in(loop.test)
+    sends_ = [n for n in ast.walk(loop) if isinstance(n, ast.Call) and isinstance(n.func, ast.Attribute) and n.func.attr == "send" and n.args]
+    PENDING = sends_[0].args[0].id if len(sends_) == 1 and isinstance(sends_[0].args[0], ast.Name) else None
+    ROOT = fnode.args.args[0].arg if fnode.args.args else None
+    if not (STACK and PENDING and ROOT):
+        R.undecided("expr_unparse.expr_unparse/shape", f"cannot identify the stack / pending-result / root variables (found {STACK!r}, {PENDING!r}, {ROOT!r})")
+        return
+
     NP = z3.Function("NP", z3.IntSort(), z3.IntSort())  # abstract node precedence of a node id
 
     def mk_node_frame(tag, sends):
@@ -495,7 +516,7 @@ def g_trampoline(R, tier):
         stack = [below, top]
         conv_is_none = c.branch(z3.Bool("converted.is_none"))
         converted = None if conv_is_none else Hole("converted", "text")
-        fr = Frame(ifn, dict(stack=stack, converted=converted, node=Opaque("root", ast.expr)), ifn.globals, [], name="expr_unparse")
+        fr = Frame(ifn, {STACK: stack, PENDING: converted, ROOT: Opaque("root", ast.expr)}, ifn.globals, [], name="expr_unparse")
         sig = m.run(m.exec_block(loop.body, fr))
         return dict(arm=arm, sig=sig, stack=stack, locals=fr.locals, sent=sent, top=top, below=below,
                     child=child, text=text, npv=npv, opv=opv, pslot=pslot, converted_in=converted)
@@ -526,11 +547,11 @@ def g_trampoline(R, tier):
                         R.check(f"{base}/child-node-is-requested-node/{sig}", new.fields["node"] is v["child"], repr(new.fields["node"]))
                         R.check(f"{base}/child-gets-parent-quote/{sig}", new.fields["qm_in"] is v["top"].fields["qm"],
                                 f"quote handed down: {new.fields['qm_in']!r}")
-                    R.check(f"{base}/nothing-pending-after-request/{sig}", v["locals"]["converted"] is None, repr(v["locals"]["converted"]))
+                    R.check(f"{base}/nothing-pending-after-request/{sig}", v["locals"][PENDING] is None, repr(v["locals"][PENDING]))
                 else:
                     ok = len(st) == 1 and st[0] is v["below"]
                     R.check(f"{base}/pop-finished/{sig}", ok, f"stack after a return: {st!r}")
-                    conv = v["locals"]["converted"]
+                    conv = v["locals"][PENDING]
                     wrapped = tmplcmp.canon(c, conv) == tmplcmp.canon(c, Tmpl(["(", v["text"], ")"]))
                     plain = tmplcmp.canon(c, conv) == tmplcmp.canon(c, v["text"])
                     R.check(f"{base}/result-is-text-or-parenthesised-text/{sig}", wrapped or plain, repr(conv))
@@ -551,7 +572,7 @@ def g_trampoline(R, tier):
             return o
         m = Machine(stubs={"oneliner.expr_unparse:_Node": node_stub})
         root = Opaque("root", ast.expr)
-        fr = Frame(ifn, dict(node=root), ifn.globals, [], name="expr_unparse")
+        fr = Frame(ifn, {ROOT: root}, ifn.globals, [], name="expr_unparse")
         sig = m.run(m.exec_block(pre, fr))
         return dict(locals=fr.locals, made=made, root=root, sig=sig)
     for p in explore(run_entry):
@@ -559,7 +580,7 @@ def g_trampoline(R, tier):
             R.undecided("expr_unparse.expr_unparse/entry", repr(p.value))
             continue
         v = p.value
-        st = v["locals"].get("stack")
+        st = v["locals"].get(STACK)
         ok = isinstance(st, list) and len(st) == 1 and len(v["made"]) == 1 and st[0] is v["made"][0]
         R.check("expr_unparse.expr_unparse/entry/one-root-frame", ok, repr(st))
         if ok:
@@ -583,13 +604,13 @@ def g_trampoline(R, tier):
                            f"{kname} (node_prec {npv}) would be emitted bare at the root (slot {f['outer_precedence']})", backend="ground",
                            replay=dict(kind="slot", parent="<root>", label="root", child=kname))
             R.ok_many("expr_unparse.expr_unparse/entry/root-slot-sound", n_ok, "ground")
-            R.check("expr_unparse.expr_unparse/entry/pending-none", v["locals"].get("converted") is None, repr(v["locals"].get("converted")))
+            R.check("expr_unparse.expr_unparse/entry/pending-none", v["locals"].get(PENDING) is None, repr(v["locals"].get(PENDING)))
 
     # ---- exit: with the stack empty the function returns the last finished text ------------
     def run_exit(c):
         m = Machine()
         t = Hole("final", "text")
-        fr = Frame(ifn, dict(stack=[], converted=t, node=Opaque("root", ast.expr)), ifn.globals, [], name="expr_unparse")
+        fr = Frame(ifn, {STACK: [], PENDING: t, ROOT: Opaque("root", ast.expr)}, ifn.globals, [], name="expr_unparse")
         sig = m.run(m.exec_block(post, fr))
         return dict(sig=sig, t=t)
     for p in explore(run_exit):
